@@ -235,7 +235,8 @@ OpBet(g, i, x, pw) ==
   IF ~HasAction(g, i, "bet") THEN NO(g)
   ELSE IF x <= 0 THEN NO(g)
   ELSE LET g1 == Pay([g EXCEPT !.P[i].did = "bet", !.P[i].acted = TRUE], i, x, TRUE)
-       IN OK(Resume(SetLast([g1 EXCEPT !.prs = x], i, "bet", x), pw))
+       \* the minimum raise is the bet actually made (a bet above the stack is an all-in for less)
+       IN OK(Resume(SetLast([g1 EXCEPT !.prs = g1.P[i].wager], i, "bet", x), pw))
 OpAllin(g, i, pw) ==
   IF ~HasAction(g, i, "allin") THEN NO(g)
   ELSE LET g0 == [g EXCEPT !.P[i].did = "allin", !.P[i].acted = TRUE]
